@@ -1714,7 +1714,9 @@ class Process:
         """Raise NSP if the process disappeared on us."""
         # For those C function who do not raise NSP, possibly returning
         # incorrect or incomplete result.
-        os.stat(f"{self._procfs_path}/{self.pid}")
+        # Check /proc/PID/stat and not just /proc/PID: the directory may
+        # still exist while the files within it are gone, see #2418.
+        os.stat(f"{self._procfs_path}/{self.pid}/stat")
 
     def _readlink(self, path, fallback=UNSET):
         # * https://github.com/giampaolo/psutil/issues/503
